@@ -35,6 +35,19 @@ CHECKS = {
              "excused only as a consequence of an open C01 finding (first pass changed the structure AND the finding's trigger is present).",
         technique="TLA+ model checking (TLC) of the renderer/reader composition + two-pass replay + trace validation (IdemTrace.tla)",
         design="§6 C02, §12"),
+    "C03": dict(
+        level="model_checking",
+        text="spec/Layout.tla: a paragraph is a word sequence (plain / sentence-ending / atomic / block-looking / tag); a layout gives each gap "
+             "one of {1 space, 2+ spaces, newline, newline + extra indent, lazy newline}; the machine re-lays one gap at a time and TLC explores "
+             "every reachable layout x 3 containers; Admissible defines the re-layouts the property quantifies over (no newline next to a tag, "
+             "no block-looking word at a line start, lazy newline only in containers); CanonStable and OneSegment hold. Every admissible "
+             "layout is concretised and formatted by the real reformat_text under 5 option sets and must give the bytes of the canonical "
+             "single-space layout; for the canonical layout every ordered pair of option sets (o1 then o2) must give the bytes of o2 alone. "
+             "spec/LayoutTrace.tla re-evaluates admissibility on each observation and reports the equality.",
+        note="Layout relation: 0 failures. History relation: failures are excused only by counterfactual neutralisation (undo the first pass's "
+             "escapes / re-join its lines => second pass agrees): D12, D41, and D21 when the first pass changed the structure.",
+        technique="TLA+ model checking (TLC) of Layout.tla + exhaustive replay of admissible layouts + trace validation (LayoutTrace.tla)",
+        design="§6 C03, §12"),
     "C04": dict(
         level="model_checking",
         text="spec/Code.tla models _render_code / _min_fence_length: every code block (fence ` or ~, length 3/4 or indented, three info-string "
